@@ -194,10 +194,15 @@ def child_stream(vm, var_id):
 
     def elem(vm_, idx):
         b = make_dict([])
+        from pyvc.ops import dict_set
         if var_id is not None:
-            from pyvc.ops import dict_set
             dict_set(b, var_id, vm_.alloc(HV, {"value": SInt(vm_.ctx.fresh_int("sol")), "id_": 0}))
-        return vm_.alloc(OR, {"bindings": b, "is_false": False, "operand": None})
+        # a variable that is NOT selected but was bound while the description was evaluated (e.g. a variable of an enclosing
+        # query that occurs in the conditions of this sub-query): its binding belongs to the solution
+        dict_set(b, 8, vm_.alloc(HV, {"value": SInt(vm_.ctx.fresh_int("other")), "id_": 1}, tag="binding-of-an-unselected-variable"))
+        r = vm_.alloc(OR, {"bindings": b, "is_false": False, "operand": None})
+        vm_.ctx.last_child_result = r
+        return r
     return SymStream("child", elem, length=n, meta={"kind": "generator"}), n
 
 
@@ -280,6 +285,12 @@ def consume_and_check(vm, q, n, lower, upper, prefix, the=False):
             if upper is not None:
                 ctx.check(f"{prefix}::never-yields-beyond-upper", y() <= upper)
             ctx.check(f"{prefix}::yield-is-true-result", z3.BoolVal(res.fields["is_false"] is False))
+            src = getattr(ctx, "last_child_result", None)
+            if src is not None:
+                from pyvc.ops import dict_get, dict_items
+                kept = all(dict_get(res.fields["bindings"], k_) is v_ for k_, v_ in dict_items(src.fields["bindings"]))
+                ctx.check(f"{prefix}::every-binding-of-the-child-result-is-passed-on", z3.BoolVal(kept),
+                          detail=f"child result binds {[k_ for k_, _ in dict_items(src.fields['bindings'])]}, yielded result binds {[k_ for k_, _ in dict_items(res.fields['bindings'])]}")
     except PyRaise as pr:
         if exc_is(vm, pr, "GreaterThanExpectedNumberOfSolutions"):
             ctx.cover("greater")
